@@ -340,7 +340,7 @@ func c15OpsB(s *c15script) []c15op {
 			ops = append(ops, c15op{opSwap, i, j})
 		}
 		if s.tsig && s.wire[i].mode == wSigned {
-			ops = append(ops, c15op{opStrip, i, 0}, c15op{opStripKeepAR, i, 0}, c15op{opRekeySecret, i, 0}, c15op{opRekeyName, i, 0}, c15op{opRekeyKnown, i, 0})
+			ops = append(ops, c15op{opStrip, i, 0}, c15op{opStripKeepAR, i, 0}, c15op{opRekeySecret, i, 0}, c15op{opRekeyName, i, 0}, c15op{opRekeyKnown, i, 0}, c15op{opMacShort, i, 0}, c15op{opMacShort, i, 1}, c15op{opMacShort, i, 9}, c15op{opMacShort, i, 15})
 		}
 	}
 	return ops
@@ -467,7 +467,7 @@ func c15Spaces(c *fw.Ctx) {
 		faultM = 9
 	}
 	const alterM = 6 // octets are altered in streams of ≤ alterM records; longer ones get every other fault
-	c.Space("fault1", fmt.Sprintf("every shape with ≤ %d transmitted records (beyond 6 records: IXFR difference shapes with first old serial = client serial only, and no altered octets) × every composition × TSIG off/on × every single fault: wrong ID (xor %v) / RCODE %v on any message; first record replaced, preceded by a non-SOA, or missing; 6 kinds of extra records behind the closing SOA (same or new message, SOA or not); an empty-answer message inserted at any position; any message dropped, duplicated, any two swapped; with TSIG any message unsigned, unsigned with another additional record, signed with another secret, signed with an unknown key, signed with another key the client has configured; any digest-covered octet (without TSIG: any octet, structural guarantees only) of any message xor %v; connection closed after every octet count 0..len-1; non-trivial: some fault changes the reference outcome to an error", faultM, b.idXors, b.rcodes, b.masks), true,
+	c.Space("fault1", fmt.Sprintf("every shape with ≤ %d transmitted records (beyond 6 records: IXFR difference shapes with first old serial = client serial only, and no altered octets) × every composition × TSIG off/on × every single fault: wrong ID (xor %v) / RCODE %v on any message; first record replaced, preceded by a non-SOA, or missing; 6 kinds of extra records behind the closing SOA (same or new message, SOA or not); an empty-answer message inserted at any position; any message dropped, duplicated, any two swapped; with TSIG any message unsigned, unsigned with another additional record, signed with another secret, signed with an unknown key, signed with another key the client has configured, or carrying only the first 0, 1, 9 or 15 octets of its MAC; any digest-covered octet (without TSIG: any octet, structural guarantees only) of any message xor %v; connection closed after every octet count 0..len-1; non-trivial: some fault changes the reference outcome to an error", faultM, b.idXors, b.rcodes, b.masks), true,
 		func(emit func(func(*fw.R))) {
 			for _, sh := range shapes {
 				if len(sh.recs) > faultM || (len(sh.recs) > alterM && strings.HasSuffix(sh.name, "-qlt")) {
